@@ -506,6 +506,13 @@ def r4b_always_authenticate_everywhere(ctx, prog):
         f = prog.fn(q)
         ctx.analysed(f)
         reads = [c for c in calls(f['body'], short='getBooleanValue') if c.get('args') and tables.const_eval(c['args'][0]) == aa]
+        if not reads:
+            # the statements may have been moved into a file-local free helper called from here (one level)
+            import os
+            for c in calls(f['body']):
+                for g in prog.by_name.get(c.get('callee') or '', []):
+                    if not g.get('class') and g.get('body') is not None and os.path.basename(g['file']) == os.path.basename(f['file']):
+                        reads += [x for x in calls(g['body'], short='getBooleanValue') if x.get('args') and tables.const_eval(x['args'][0]) == aa]
         site = 'CKA_ALWAYS_AUTHENTICATE of the key'
         if reads:
             r.ok(q, site, 'read at line %s' % reads[0]['l'], file=f['file'], line=reads[0]['l'])
